@@ -94,6 +94,10 @@ pub enum Op {
     MergeAttr(Vec<(bool, String)>),
     SetMultiple,
     SetText(bool),
+    /// remove_child(name) and keep the removed element aside (replacing what was kept before)
+    Take(String),
+    /// add_unique_child(the element kept aside): an element that was a child before is added again
+    PutBack,
 }
 
 #[derive(Clone, Debug)]
@@ -114,6 +118,8 @@ impl Ev {
             Op::MergeAttr(l) => json!({"merge_attr": l.iter().map(|(m, a)| json!([if *m {"M"} else {"O"}, a])).collect::<Vec<_>>()}),
             Op::SetMultiple => json!("set_multiple"),
             Op::SetText(b) => json!({"set_text": b}),
+            Op::Take(n) => json!({"take": n}),
+            Op::PutBack => json!("put_back"),
         };
         json!({"path": self.path, "op": op})
     }
@@ -133,6 +139,10 @@ impl Ev {
             Op::Remove(n.as_str()?.to_string())
         } else if let Some(l) = o.get("merge_attr") {
             Op::MergeAttr(l.as_array()?.iter().map(|e| (e[0].as_str() == Some("M"), e[1].as_str().unwrap_or("").to_string())).collect())
+        } else if o.as_str() == Some("put_back") {
+            Op::PutBack
+        } else if let Some(n) = o.get("take") {
+            Op::Take(n.as_str()?.to_string())
         } else if o.as_str() == Some("set_multiple") {
             Op::SetMultiple
         } else if let Some(b) = o.get("set_text") {
@@ -144,10 +154,12 @@ impl Ev {
     }
 }
 
-#[derive(Clone)]
+#[derive(Clone, Debug)]
 pub struct State {
     el: El,
     model: MNode,
+    held: Option<El>,
+    mheld: Option<MNode>,
 }
 
 fn new_leaf(name: &str, attrs: &[String], text: bool, multiple: bool) -> (El, MNode) {
@@ -210,7 +222,7 @@ fn apply(s: &State, ev: &Ev) -> (State, Vec<(String, String)>) {
         }
     };
     // lookup must address the child with the given name (or nothing)
-    for n in ["a", "b", "c"] {
+    for n in ["a", "A", "b"] {
         let got = t.get_child(&n.to_string()).map(|c| (matches!(c, Necessity::Mandatory(_)), c.inner_t().name.clone()));
         let want = mt.child(n).map(|(m, c)| (*m, c.name.clone()));
         if got != want {
@@ -267,6 +279,35 @@ fn apply(s: &State, ev: &Ev) -> (State, Vec<(String, String)>) {
         Op::SetText(b) => {
             t.text = if *b { Some("t".to_string()) } else { None };
             mt.text = *b;
+        }
+        Op::Take(n) => {
+            let got = t.remove_child(n);
+            let want = mt.children.iter().position(|c| c.1.name == *n).map(|i| mt.children.remove(i));
+            let g = got.as_ref().map(|c| (matches!(c, Necessity::Mandatory(_)), view_canon(&c.inner_t().verif_view())));
+            let w = want.as_ref().map(|(m, c)| (*m, c.canon()));
+            if g != w {
+                issues.push(("remove-result".into(), format!("remove_child({}) returned {:?}, model {:?}", n, g, w)));
+            }
+            if let Some(c) = got {
+                next.held = Some(c.into_inner_t());
+            }
+            if let Some((_, c)) = want {
+                next.mheld = Some(c);
+            }
+        }
+        Op::PutBack => {
+            if let (Some(h), Some(mh)) = (next.held.take(), next.mheld.take()) {
+                let before = canon::k_full(t);
+                let present = mt.child(&mh.name).is_some();
+                t.add_unique_child(h);
+                if present {
+                    if canon::k_full(t) != before {
+                        issues.push(("add-present-changes".into(), format!("adding the already present child {} (an element that had been removed before) changed the parent", mh.name)));
+                    }
+                } else {
+                    mt.children.push((true, mh));
+                }
+            }
         }
     }
     (next, issues)
@@ -326,7 +367,8 @@ fn judge_state(s: &State, replay: &Value, rank: u64, summary_prefix: &str) -> Ve
 }
 
 pub fn events() -> Vec<Ev> {
-    let names = ["a", "b"];
+    // a and A have the same PascalCase form and colliding field identifiers
+    let names = ["a", "A"];
     let mut targets: Vec<Vec<String>> = vec![vec![]];
     for n in names {
         targets.push(vec![n.to_string()]);
@@ -351,7 +393,9 @@ pub fn events() -> Vec<Ev> {
             }
             out.push(Ev { path: path.clone(), op: Op::SetOptional(n.into()) });
             out.push(Ev { path: path.clone(), op: Op::Remove(n.into()) });
+            out.push(Ev { path: path.clone(), op: Op::Take(n.into()) });
         }
+        out.push(Ev { path: path.clone(), op: Op::PutBack });
         for l in &lists {
             out.push(Ev { path: path.clone(), op: Op::MergeAttr(l.clone()) });
         }
@@ -368,9 +412,80 @@ fn initial() -> Vec<(Vec<String>, State)> {
         .map(|attrs| {
             let el = Element::new("r".to_string(), attrs.clone());
             let model = MNode::new("r", &attrs.iter().map(|s| s.as_str()).collect::<Vec<_>>());
-            (attrs, State { el, model })
+            (attrs, State { el, model, held: None, mheld: None })
         })
         .collect()
+}
+
+// --- cross-check of the search engine against stateright -----------------------------------------
+
+#[derive(Clone, Debug)]
+struct SrState {
+    key: String,
+    st: State,
+}
+
+impl PartialEq for SrState {
+    fn eq(&self, o: &Self) -> bool {
+        self.key == o.key
+    }
+}
+
+impl std::hash::Hash for SrState {
+    fn hash<H: std::hash::Hasher>(&self, h: &mut H) {
+        self.key.hash(h)
+    }
+}
+
+struct SrModel {
+    evs: Vec<Ev>,
+}
+
+fn state_key(s: &State) -> String {
+    format!(
+        "{}|{}|{}|{}",
+        canon::k_full(&s.el),
+        s.model.canon(),
+        s.held.as_ref().map(canon::k_full).unwrap_or_default(),
+        s.mheld.as_ref().map(|m| m.canon()).unwrap_or_default()
+    )
+}
+
+impl stateright::Model for SrModel {
+    type State = SrState;
+    type Action = usize;
+
+    fn init_states(&self) -> Vec<SrState> {
+        initial().into_iter().map(|(_, st)| SrState { key: state_key(&st), st }).collect()
+    }
+
+    fn actions(&self, _state: &SrState, actions: &mut Vec<usize>) {
+        actions.extend(0..self.evs.len());
+    }
+
+    fn next_state(&self, s: &SrState, a: usize) -> Option<SrState> {
+        let (next, _) = apply(&s.st, &self.evs[a]);
+        Some(SrState { key: state_key(&next), st: next })
+    }
+
+    fn properties(&self) -> Vec<stateright::Property<Self>> {
+        vec![stateright::Property::<Self>::always("tree equals ordered-map model", |_, s: &SrState| {
+            view_canon(&s.st.el.verif_view()) == s.st.model.canon()
+        })]
+    }
+}
+
+/// the same state machine explored by stateright's BFS checker: number of unique states within
+/// `depth` transitions, and whether its `always` property found a counterexample
+fn stateright_states(depth: usize) -> (usize, bool) {
+    use stateright::{Checker, Model};
+    let checker = SrModel { evs: events() }
+        .checker()
+        .threads(1)
+        .target_max_depth(depth + 1)
+        .spawn_bfs()
+        .join();
+    (checker.unique_state_count(), !checker.discoveries().is_empty())
 }
 
 pub fn run(ctx: &Ctx) {
@@ -401,7 +516,7 @@ pub fn run(ctx: &Ctx) {
         ctx.report_all(judge_state(s, &json!({"root_attributes": inits[i].0, "ops": []}), i as u64, "initial: "));
     };
     // the model is part of the key so that a disagreement is never merged away
-    let key = |s: &State| format!("{}|{}", canon::k_full(&s.el), s.model.canon());
+    let key = |s: &State| state_key(s);
     let observe = |s: &State| subject::render(&s.el, Preset::QuickXml, false);
     let bfs = Bfs {
         n_events: evs.len(),
@@ -419,10 +534,18 @@ pub fn run(ctx: &Ctx) {
     };
     let stats = bfs.run();
     for f in stats.audit_failures.iter().take(5) {
-        ctx.machinery_error(format!("merge audit: {}", f));
+        ctx.machinery_soft(format!("merge audit: {}", f));
     }
     for h in stats.sample_histories.iter() {
         ctx.push("samples", hist_json(h, None));
+    }
+    // engine cross-check: stateright must find the same number of unique states within the same depth
+    let cross_depth = ctx.tier.pick(3, 4).min(stats.complete_depth);
+    let mine: u64 = stats.states_per_depth.iter().take(cross_depth + 1).sum();
+    let (theirs, discovered) = stateright_states(cross_depth);
+    ctx.set("engine_cross_check", json!({"engine": "stateright 0.31 BFS checker, 1 thread", "depth": cross_depth, "unique_states_own_engine": mine, "unique_states_stateright": theirs, "stateright_found_counterexample": discovered}));
+    if mine != theirs as u64 {
+        ctx.machinery_error(format!("own BFS found {} unique states within depth {}, stateright {}", mine, cross_depth, theirs));
     }
     ctx.set("states", json!(stats.states));
     ctx.set("transitions", json!(stats.transitions));
@@ -438,7 +561,7 @@ pub fn run(ctx: &Ctx) {
     }
     ctx.set(
         "rule",
-        json!("breadth-first search from Element::new(r, attrs) (attrs in {[], [x], [x,y]}) over the public mutators applied to the root or to a child reached with get_child_mut: add_unique_child (plain leaf / with attribute / with text / already multiple), set_child_optional, remove_child, merge_attr (five lists), set_multiple, text = Some/None; names {a,b}. Every transition is executed on the real Element and on an ordered-map model; compared after every step: child-name uniqueness, (name, tag) sets, lookup and removal results, no-op of adding a present name, subtree preservation of set_child_optional; every state is rendered (both presets, both sort options), checked for well-formedness as in C04 and its fields compared with the model"),
+        json!("breadth-first search from Element::new(r, attrs) (attrs in {[], [x], [x,y]}) over the public mutators applied to the root or to a child reached with get_child_mut: add_unique_child (plain leaf / with attribute / with text / already multiple), set_child_optional, remove_child, merge_attr (five lists), set_multiple, text = Some/None; names {a, A} (same PascalCase form, colliding identifiers); take(n) = remove_child keeping the removed element, put_back = add_unique_child of the kept element. Every transition is executed on the real Element and on an ordered-map model; compared after every step: child-name uniqueness, (name, tag) sets, lookup and removal results, no-op of adding a present name, subtree preservation of set_child_optional; every state is rendered (both presets, both sort options), checked for well-formedness as in C04 and its fields compared with the model"),
     );
 }
 
@@ -454,6 +577,8 @@ pub fn replay(ctx: &Ctx, case: &Value) {
         let mut s = State {
             el: Element::new("r".to_string(), attrs.clone()),
             model: MNode::new("r", &attrs.iter().map(|s| s.as_str()).collect::<Vec<_>>()),
+            held: None,
+            mheld: None,
         };
         for (i, ev) in ops.iter().enumerate() {
             let (next, issues) = apply(&s, ev);
